@@ -10,6 +10,7 @@ import P2.Driver.LibSpec
 import P2.Driver.Scope
 import P2.Driver.Heap
 import P2.Driver.Generic
+import P2.Driver.Iter
 /-! Line-protocol driver of the model: one request per line on stdin, one response per line on stdout. -/
 open P2.Driver
 
@@ -29,6 +30,7 @@ def handle (line : String) : String :=
   | "PARSE" :: args => P2.Driver.C03.handleParse args
   | "RENDER" :: args => P2.Driver.C03.handleRender args
   | "GEN" :: args => handleGen args
+  | "PIPE" :: args => handlePipe args
   | "PING" :: _ => "PONG"
   | _ => "BADREQ"
 
